@@ -63,17 +63,41 @@ def dataset_unit(u, res):
             A = box(sum(dv, []) + sum(fv, []))
             v, m, idx = assert_equal(res, "type-1 -> type-2 displacements (displaced atoms %s, forces=%s)" % (atoms, with_forces), symnp.unwrap(disps), want, A, tol=0)
             if v == "sat":
-                res.unconfirmed.append({"key": "%s:dataset:disp" % PID, "what": "converted displacements differ from the type-1 data"})
+                ok, what = replay_dataset(atoms, with_forces)
+                (res.violations if ok else res.unconfirmed).append({"key": "%s:dataset:disp" % PID, "what": what, "replay": {"atoms": list(atoms)}})
             if with_forces:
                 v, m, idx = assert_equal(res, "type-1 -> type-2 forces carried over (displaced atoms %s)" % (atoms,), symnp.unwrap(forces), sum(fv, []), A, tol=0)
                 if v == "sat":
-                    res.unconfirmed.append({"key": "%s:dataset:forces" % PID, "what": "converted forces differ from the type-1 data"})
+                    ok, what = replay_dataset(atoms, with_forces)
+                    (res.violations if ok else res.unconfirmed).append({"key": "%s:dataset:forces" % PID, "what": what, "replay": {"atoms": list(atoms)}})
             else:
                 ok = forces is None
                 res.queries.append({"name": "no forces in type-1 => None [ground fact]", "verdict": "unsat" if ok else "sat", "seconds": 0.0, "nvars": 0, "nontrivial": False, "hash": "ground"})
     res.twins.append({"name": "dataset twin", "verdict": "sat"})
     res.samples.append({"unit": res.unit, "symbols": 3 * 3 + 3 * 12})
     return res
+
+
+@symnp.outside_session
+def replay_dataset(atoms, with_forces):
+    import phonopy.structure.dataset as dsm
+    rng = np.random.default_rng(4)
+    natom = 4
+    ds = {"natom": natom, "first_atoms": []}
+    dv = rng.uniform(-0.1, 0.1, (len(atoms), 3)); fv = rng.uniform(-1, 1, (len(atoms), natom, 3))
+    for k, a in enumerate(atoms):
+        e = {"number": a, "displacement": dv[k].copy()}
+        if with_forces:
+            e["forces"] = fv[k].copy()
+        ds["first_atoms"].append(e)
+    disps, forces = dsm.get_displacements_and_forces(ds)
+    want = np.zeros((len(atoms), natom, 3))
+    for k, a in enumerate(atoms):
+        want[k, a] = dv[k]
+    d = float(np.abs(np.array(disps) - want).max())
+    if with_forces:
+        d = max(d, float(np.abs(np.array(forces) - fv).max()))
+    return d > 1e-12, "type-1 -> type-2 dataset conversion changes the data: displacements/forces differ by %.3g from what the type-1 dataset holds (displaced atoms %s)" % (d, list(atoms))
 
 
 def born_unit(u, res):
